@@ -522,6 +522,8 @@ func lowerRules(fl *Field, r *Rules) (*validate.FieldRules, error) {
 			rr := &validate.RepeatedRules{MinItems: r.MinItems, MaxItems: r.MaxItems}
 			if r.Unique {
 				rr.Unique = proto.Bool(true)
+			} else if r.UniqueFalse {
+				rr.Unique = proto.Bool(false)
 			}
 			fr.Type = &validate.FieldRules_Repeated{Repeated: rr}
 			any = true
